@@ -3,7 +3,7 @@
    of Conc.v; that the real code produces such traces is what the correspondence (hook traces under
    the deterministic scheduler) and the Miri runs check. *)
 From CsModel Require Extracted AutoTrait.
-From CsModel Require Import Red Conc ConcProofs Race RaceConc.
+From CsModel Require Import Red Conc ConcProofs Race RaceConc ConcLocks.
 From Coq Require Import List Bool.
 Open Scope nat_scope.
 
@@ -87,3 +87,10 @@ Proof.
   vm_compute. reflexivity.
 Qed.
 Print Assumptions C07_views_need_shareable_resolvers.
+
+(* the write locks held ACROSS steps (by the loser of a creation race while it disposes of its candidate, by the teardown
+   while it tears a child down) exclude each other in the machine: in every reachable state, under every schedule, no slot is
+   write-locked twice (WlOk) — the machine-level counterpart of the LockExclusion hypothesis of C07_lock_discipline_orders *)
+Theorem C07_write_locks_exclusive : forall g progs s, Reach g progs s -> WlOk (c_wlock s).
+Proof. exact write_locks_exclusive. Qed.
+Print Assumptions C07_write_locks_exclusive.
